@@ -121,4 +121,38 @@ theorem baseX_sortedDb_perm (o : Oracles) (c : LogQL.Ctx) (d : LokiDb) (ms : Lis
   simp only [sortedDb]
   exact (sortBy_perm _ _).symm
 
+/-! ### the points of an unwrapped range aggregation carry a label document (under `SeriesStoreOk`) -/
+theorem unwrapVal_nil (o : Oracles) (fn : LogQL.UnwrapFn) (dur : Nat) : unwrapVal o fn dur [] = none := by
+  cases fn <;> rfl
+
+theorem rangePoints_unwrap_labels (o : Oracles) (c : LogQL.Ctx) (d : LokiDb) (hd : SeriesStoreOk o c d)
+    (fn : LogQL.UnwrapFn) (label : String) (q0 : LogQuery) (dur : Nat) (bp bsuf : Option Grouping) (cm : Option Comparison)
+    (pt : Pt) (hpt : pt ∈ rangePoints o c d ⟨.unwrap fn label, q0, dur, bp, bsuf, cm⟩ c.fromNs c.toNs) :
+    ∃ m, pt.labels = .map m := by
+  have hes : d.samples.filter (entryMatchesW o c d q0 c.fromNs c.toNs) = d.samples.filter (entryMatches o c d q0) := rfl
+  simp only [rangePoints, hes, List.mem_filterMap] at hpt
+  obtain ⟨kk, _, hsome⟩ := hpt
+  obtain ⟨v', _, rfl⟩ := Option.map_eq_some_iff.mp hsome
+  generalize hgrp : List.filter (fun it : Val × Val × Int × Rat => _) _ = grp at *
+  cases hh : grp.head? with
+  | none =>
+    rw [List.head?_eq_none_iff] at hh
+    subst hh
+    rename_i hv
+    simp [unwrapVal_nil] at hv
+  | some it =>
+    have hit : it ∈ grp := List.mem_of_mem_head? hh
+    rw [← hgrp] at hit
+    obtain ⟨hit, _⟩ := List.mem_filter.mp hit
+    obtain ⟨s, hs, rfl⟩ := List.mem_map.mp hit
+    obtain ⟨m, hm, _, _⟩ := sample_row' (ratOps (fun _ => none)) o c d hd q0 s hs
+    simp only [Option.map_some, Option.getD_some]
+    cases chosenGrouping bp bsuf with
+    | none => exact ⟨m, hm⟩
+    | some g => simp only [hm, regroup]; exact ⟨_, rfl⟩
+
+theorem ptLabels_of_map (o : Oracles) (c : LogQL.Ctx) (d : LokiDb) (q : LogQuery) (p : Pt) (m : List (Bytes × Bytes))
+    (h : p.labels = .map m) : ptLabels o c d q p = p.labels := by
+  simp only [ptLabels, h]
+
 end Qryn.Read
